@@ -81,3 +81,9 @@ Definition neig_case (compute_all verbose : bool) (n n_rel : nat) (obs : option 
   | None, None => true
   | _, _ => false
   end.
+
+Definition gauss_case (tol tolc : Q) (nodes : list (Q * Q * Q)) (obs : Q) : bool := close tolc (gauss_sum tol nodes) obs.
+Definition space_case (sp : tl_space) (n_data metric_size : nat) (obs_data : bool) : bool :=
+  Bool.eqb (use_data_space sp n_data metric_size) obs_data.
+Definition trace_inv_case (sp : tl_space) (n_data metric_size : nat) (tolc : Q) (evs : list Q) (obs : Q) : bool :=
+  close tolc (trace_inv_exact (use_data_space sp n_data metric_size) evs) obs.
